@@ -98,6 +98,17 @@ func (vc *VC) callStatic(fr *Frame, st *State, callee *ssa.Function, closure *ss
 		vc.event(fr, st, name, args, sigTypes(callee.Signature, true)...)
 	}
 	res := vc.callStaticInner(fr, st, callee, closure, args, argVals, pos)
+	if callee.Synthetic == "" && len(res) > 0 && vc.eventNames[shortFuncName(callee)] {
+		// callsum("f", 99): sum of the (integer or boolean: 1/0) first results of the recorded calls
+		if sk := fmt.Sprintf("G_sum_%s_%d", sanitizeID(shortFuncName(callee)), resultSlot); vc.svSort[sk] == "Int" {
+			switch vc.sortOf(callee.Signature.Results().At(0).Type()) {
+			case "Int":
+				vc.set(st, sk, fmt.Sprintf("(+ %s %s)", vc.get(st, sk), res[0]))
+			case "Bool":
+				vc.set(st, sk, fmt.Sprintf("(+ %s (ite %s 1 0))", vc.get(st, sk), res[0]))
+			}
+		}
+	}
 	if idx != "" && len(res) > 0 {
 		// callres: the first result of this call is recorded under the call's index
 		key := fmt.Sprintf("G_arg_%s_%d", sanitizeID(shortFuncName(callee)), resultSlot)
